@@ -73,12 +73,18 @@ def run_scenario(sc: dict[str, Any]) -> dict[str, Any]:
                         v = to_virtual(d['started'])
                         first = int(v) if float(v).is_integer() else -1
                     prog[h] = {'st': st, 'r': int(d.get('retries') or 0), 'pu': d.get('purpose') or 'none', 'until': until, 'first': first}
-            return {'ess': ess_id(o.get('spec', {}).get('x'), on), 'lh': lh, 'prog': prog,
-                    'fins': ['K' if f == FIN else f for f in md.get('finalizers', []) or []],
-                    'deleting': md.get('deletionTimestamp') is not None,
-                    'dummy': f'{PREFIX}/touch-dummy' in ann or f'{PREFIX}/touch-dummy-ofDRS' in ann, 'match': on or not use_label,
-                    'rv': int(md['resourceVersion'])}
+            pr = {'ess': ess_id(o.get('spec', {}).get('x'), on), 'lh': lh, 'prog': prog,
+                  'fins': ['K' if f == FIN else f for f in md.get('finalizers', []) or []],
+                  'deleting': md.get('deletionTimestamp') is not None,
+                  'dummy': f'{PREFIX}/touch-dummy' in ann or f'{PREFIX}/touch-dummy-ofDRS' in ann, 'match': on or not use_label,
+                  'rv': int(md['resourceVersion'])}
+            if sc.get('res'):         # handlers return results: status.<handler id> = {'n': k}
+                st_ = o.get('status') or {}
+                pr['res'] = {h: int((st_.get(h) or {}).get('n', 0)) if isinstance(st_.get(h), dict) else 0 for h in UNIVERSE}
+            return pr
         sim.srv.projector = project
+        if (sc.get('res') or {}).get('ssub'):
+            sim.things.status_sub = True       # the kind has the status subresource: the status part of a patch is a request of its own
 
         lifecycle = {'one': kopf.lifecycles.one_by_one, 'all': kopf.lifecycles.all_at_once,
                      'asap': kopf.lifecycles.asap}[sc.get('lifecycle', 'asap')]
@@ -239,6 +245,8 @@ def conf_of(sc: dict[str, Any]) -> dict[str, Any]:
     conf = {'hc': hc, 'order': order, 'lifecycle': sc.get('lifecycle', 'asap'), 'ctimeout': sc.get('ctimeout', 5)}
     if sc.get('subs'):
         conf['subs'] = {h: (list(sc['subs'][h]) if h in sc['subs'] else []) for h in UNIVERSE}
+    if sc.get('res') and not sc.get('subs') and not sc.get('daemons'):
+        conf['res'] = {'ssub': bool(sc['res'].get('ssub'))}
     if sc.get('daemons'):
         conf.update(dh={hid: {'kind': 'daemon', 'backoff': c['backoff'], 'timeout': c['timeout'], 'sync': bool(c.get('sync'))}
                         for hid, c in sc['daemons'].items()}, polling=3, exitto=2)
@@ -337,7 +345,8 @@ def convert(raw: list[dict[str, Any]], hs: dict[str, Any], sc: dict[str, Any]) -
             if e['outcome'] == 'cancelled':
                 continue
             out.append({'ev': 'inv', 't': t, 'h': e['id'], 'retry': en['retry'], 'reason': en['reason'], 'rv': (en['rv'] or 0) - off,
-                        'k': k, 'd': d, 't_enter': en['t']})
+                        'k': k, 'd': d, 't_enter': en['t'],
+                        'res': int(s[1].get('n', 0)) if k == 'ok' and not isinstance(s, str) and len(s) > 1 and isinstance(s[1], dict) else 0})
         elif ev == 'srv.req' and e.get('plural') == 'things' and e.get('kind') == 'patch':
             code = e['code']
             if e.get('ptype') == 'merge':
@@ -372,7 +381,7 @@ def convert(raw: list[dict[str, Any]], hs: dict[str, Any], sc: dict[str, Any]) -
 
 def _objfields(p: dict[str, Any], off: int) -> dict[str, Any]:
     return {'rv': p['rv'] - off, 'ess': p['ess'], 'lh': p['lh'], 'prog': p['prog'], 'fins': p['fins'],
-            'deleting': p['deleting'], 'dummy': p['dummy'], 'match': p['match']}
+            'deleting': p['deleting'], 'dummy': p['dummy'], 'match': p['match'], **({'res': p['res']} if 'res' in p else {})}
 
 
 # --------------------------------------------------------------------------- judging
@@ -543,6 +552,11 @@ def gen_scenarios(seed: int, n: int, profile: str) -> list[dict[str, Any]]:
               'env': env, 'end': t + 80, 'tail_from': t + 60, 'profile': profile,
               'sync': 'all' if i % 5 == 3 else 'mixed' if i % 10 == 7 else '',     # synchronous (threaded) handlers
               'drs': i % 6 == 5 and profile != 'mixed'}        # every sixth history is about a ReplicaSet owned by a Deployment (marked progress keys)
+        if profile in ('converge', 'progress', 'errors', 'finalizer', 'consistency', 'resume') and r2.random() < 0.35:
+            # handlers return results (status.<handler id>), on a kind with or without the status subresource
+            sc['res'] = {'ssub': r2.random() < 0.6}
+            for h in hs:
+                hs[h]['script'] = [('ok', {'n': r2.choice([1, 2])}) if x_ == 'ok' and r2.random() < 0.7 else x_ for x_ in hs[h]['script']] + [('ok', {'n': r2.choice([1, 2])})]
         if profile == 'timeouts':    # handler timeouts: attempts stop T seconds after the first one, across retries and restarts
             for h in hs:
                 if rnd.random() < 0.7:
